@@ -106,6 +106,8 @@ class Device:
         self.bo = None
         self.received = {}           # reassembled parts of the last operation
         self.inject = {}             # (cmd, op) -> status word to answer with, once
+        self.inject_at = {}          # n -> status word / ("T",) ... answered to the n-th APDU from now (0-based)
+        self.napdu = 0
         self.early = {}              # stage -> byte count after which the device moves on early
         self.reported_success = False
         self.final_op = None         # override of the final SUCCESS op of sign (e.g. a wrong op)
@@ -121,6 +123,11 @@ class Device:
             return self.err(0x6E00)
         cmd = apdu[1]
         data = apdu[2:]
+        n = self.napdu
+        self.napdu += 1
+        if n in self.inject_at:
+            v = self.inject_at.pop(n)
+            return self.err(v) if isinstance(v, int) else tuple(v)
         key = (cmd, data[0] if data else None)
         if key not in self.inject and (cmd, "*") in self.inject:
             key = (cmd, "*")
@@ -205,6 +212,9 @@ class Device:
         self.received["onboard_pin"] = self._pin_sent(True)
         self.onboarded = True
         self.pin = self.received["onboard_pin"]
+        # the state in which the device shows up again once it has been disconnected and re-connected
+        for k, v in (getattr(self, "after_wipe", None) or {}).items():
+            setattr(self, k, v)
         return D(CLA, 2)
 
     def cmd_a0(self, data):      # SGX_ONBOARD: 0 | seed(32) | pin
@@ -543,6 +553,29 @@ class PowerCycled:
             self.inner.unlocked = False
             return ("W",)
         return self.inner(apdu)
+
+
+class Swapped:
+    """The link is lost at the first APDU; what answers afterwards is a device in another state (set by
+    `new_state`), and the n-th exchange after the loss times out once (timeout_at, 0-based; None = never)."""
+
+    def __init__(self, inner, new_state, timeout_at=None):
+        self.__dict__.update(inner=inner, new_state=new_state, timeout_at=timeout_at, lost=False, count=0)
+
+    def __call__(self, apdu):
+        if not self.lost:
+            self.__dict__["lost"] = True
+            for k, v in self.new_state.items():
+                setattr(self.inner, k, v)
+            return ("W",)
+        n = self.count
+        self.__dict__["count"] = n + 1
+        if self.timeout_at is not None and n == self.timeout_at:
+            return ("T",)
+        return self.inner(apdu)
+
+    def __getattr__(self, name):
+        return getattr(self.inner, name)
 
 
 class FailOnce:
